@@ -1017,7 +1017,7 @@ def run_child(spec):
 # runner side
 # ---------------------------------------------------------------------------------------------
 ASSUMPTIONS = [
-    'statement shapes come from a seeded recursive generator (DESIGN §5.C12), not from all SQL: 30 shapes (select list, WHERE, ON, CASE operand / WHEN / THEN / ELSE, '
+    'statement shapes come from a seeded recursive generator (DESIGN §5.C12), not from all SQL: 33 shapes and six flat shapes with 10-40 placeholders (select list, WHERE, ON, CASE operand / WHEN / THEN / ELSE, '
     'function arguments incl. FROM / FOR, count(distinct), extract, IN (also IN ?), tuples, IS, BETWEEN, CAST, window PARTITION / ORDER, sub-selects in FROM, WHERE, '
     'select list and on both join sides, three-way and outer joins, sub-select joined with a model, one and two CTEs, UNION, GROUP / HAVING / ORDER, LIMIT / OFFSET '
     '(rejected by the pinned grammars), INSERT VALUES rows of different layouts, INSERT SELECT, UPDATE SET / FROM / WHERE, DELETE, CREATE TABLE AS), three dialects',
@@ -1027,6 +1027,7 @@ ASSUMPTIONS = [
     'not judged (property silent, only counted): info after execution, a second execute that is refused, exceptions other than PlanningException from column discovery '
     'when the stub executor misbehaves, statements the parser rejects',
     'a second execute (other values) that is accepted must plan for those values; the value list handed to execute_steps must be unchanged afterwards',
+    'an execute generator iterated only after the same planner prepared / executed the next statement must still yield the plan of its own statement and values',
     'executor, integrations and models are stubs; no plan is executed',
 ]
 
